@@ -42,6 +42,8 @@ use lightning::{get_local_commitment_txn, get_route_and_payment_hash};
 use verif_harness::Rng;
 
 static PANIC_MSG: Mutex<String> = Mutex::new(String::new());
+/// operations of the clone being driven (for failure reports)
+static LAST_OPS: Mutex<Vec<String>> = Mutex::new(Vec::new());
 
 struct NullBroadcaster;
 impl BroadcasterInterface for NullBroadcaster {
@@ -88,10 +90,25 @@ struct View {
 	watch: BTreeSet<String>,
 	mon_events: BTreeSet<String>,
 	spendable: Vec<String>,
+	/// what a ChannelManager read together with this monitor would fail as resolved on chain
+	failed_outbound: Vec<String>,
+	/// the confirmed, not yet locked alternative (splice) funding
+	alt_funding: Option<(Txid, u32)>,
+}
+
+/// What a clone shows when its tip is a given real block (for the judge "a reorganisation back to a
+/// block leaves everything confirmed up to that block untouched").
+#[derive(Clone, PartialEq, Eq, Debug)]
+struct Snap {
+	relevant: BTreeSet<(Txid, u32, Option<BlockHash>)>,
+	balances: Vec<String>,
+	failed_outbound: Vec<String>,
+	alt_funding: Option<(Txid, u32)>,
 }
 
 struct Clone_<'a> {
 	mon: ChannelMonitor<TestChannelSigner>,
+	km: &'a lightning::util::test_utils::TestKeysInterface,
 	fee: &'a lightning::util::test_utils::TestFeeEstimator,
 	logger: &'a lightning::util::test_utils::TestLogger,
 	mon_events: BTreeSet<String>,
@@ -104,14 +121,21 @@ struct Clone_<'a> {
 	/// highest tip this clone was ever told
 	max_best: u32,
 	commit_txid: Txid,
+	/// the splice transaction; a ChannelManager lists it among its relevant txids (and so has a `Confirm`
+	/// client unconfirm it) for as long as it has not seen the channel closed
+	splice_txid: Option<Txid>,
+	seen_close: bool,
+	confirm_style: bool,
 	trace: Vec<String>,
 	txidx: &'a BTreeMap<Txid, usize>,
 	blkid: HashMap<BlockHash, u64>,
 	want_trace: bool,
+	filters: Vec<String>,
 }
 
 impl<'a> Clone_<'a> {
 	fn observe(&mut self, op: String) -> Result<(), Fail> {
+		LAST_OPS.lock().unwrap().push(op.clone());
 		let best = self.mon.current_best_block().height;
 		self.max_best = self.max_best.max(best);
 		for (t, c) in self.conf.iter() {
@@ -164,6 +188,16 @@ impl<'a> Clone_<'a> {
 				}
 			}
 		}
+		// what a restart would conclude: a ChannelManager read together with this monitor fails these HTLCs
+		// at startup, irreversibly; so none may be listed before the closing transaction is buried
+		let failed = self.mon.verif_onchain_failed_outbound_htlcs();
+		if !failed.is_empty() && !self.buried.contains(&self.commit_txid) {
+			return fail(
+				"outbound HTLCs are reported as failed on chain (a restart acts on it) before the closing transaction was buried",
+				format!("{} HTLC(s), first {}, at best height {} commitment confirmed at {:?} (after {})", failed.len(), failed[0], best, self.conf.get(&self.commit_txid), op),
+			);
+		}
+		self.check_alt(&op)?;
 		// every awaiting entry carries the height at which ITS transaction confirmed in this clone's chain
 		// (never the tip at the time the entry was created): only then does a reorg retract it exactly
 		// when the transaction it depends on is retracted
@@ -207,10 +241,148 @@ impl<'a> Clone_<'a> {
 		}
 		Ok(())
 	}
+	/// the alternative funding is recorded at the height of its confirmation in the clone's chain
+	fn check_alt(&self, op: &str) -> Result<(), Fail> {
+		if let Some((t, h)) = self.mon.verif_alternative_funding_confirmed() {
+			if self.conf.get(&t) != Some(&h) {
+				if self.confirm_style && self.seen_close && self.conf.get(&t).is_none() {
+					// known behaviour C11-F2 (known_findings.json): once the channel is closed nobody lists a
+					// confirmed, not yet locked splice transaction for a `Confirm` client to unconfirm
+					return fail(
+						"KNOWN:F2-unlisted-alternative-funding-survives-confirm-reorg",
+						format!("alternative funding {} recorded at {} is not in the clone's chain any more (after {}); it was in no get_relevant_txids list, and best_block_updated back below it does not forget it", t, h, op),
+					);
+				}
+				return fail(
+					"the recorded alternative funding is not confirmed at that height in the clone's chain",
+					format!("alternative funding {} at {} but confirmed at {:?} (after {})", t, h, self.conf.get(&t), op),
+				);
+			}
+		}
+		Ok(())
+	}
+	/// `filter_block` on the transactions about to be handed over, against the rule "spends a watched
+	/// outpoint, or ANY input spends an output of a transaction matched earlier in the same call"
+	fn check_filter(&mut self, txs: &[Transaction]) -> Result<(), Fail> {
+		if txs.is_empty() {
+			return Ok(());
+		}
+		let watched: BTreeSet<(Txid, u32)> = self.mon.get_outputs_to_watch().iter().flat_map(|(t, outs)| outs.iter().map(move |(i, _)| (*t, *i))).collect();
+		let mut matched: BTreeSet<Txid> = BTreeSet::new();
+		let mut expect: Vec<usize> = Vec::new();
+		for (i, t) in txs.iter().enumerate() {
+			if t.input.iter().any(|inp| watched.contains(&(inp.previous_output.txid, inp.previous_output.vout)) || matched.contains(&inp.previous_output.txid)) {
+				matched.insert(t.compute_txid());
+				expect.push(i);
+			}
+		}
+		let got = self.mon.verif_filter_block(txs);
+		if self.want_trace && txs.len() > 1 {
+			// for the model: watched outpoints that matter, the transactions' inputs, the kept positions
+			let mut ids: BTreeMap<Txid, usize> = BTreeMap::new();
+			let mut id = |t: &Txid| -> usize {
+				let n = ids.len() + 1;
+				*ids.entry(*t).or_insert(n)
+			};
+			let txs_s: Vec<String> = txs
+				.iter()
+				.map(|t| {
+					let me = id(&t.compute_txid());
+					format!("{}:{}", me, t.input.iter().map(|i| format!("{}.{}", id(&i.previous_output.txid), i.previous_output.vout)).collect::<Vec<_>>().join(","))
+				})
+				.collect();
+			let w: Vec<String> = watched.iter().filter(|(t, _)| ids.contains_key(t)).map(|(t, v)| format!("{}.{}", ids[t], v)).collect();
+			self.filters.push(format!("{}|{}|{}", w.join(","), txs_s.join(";"), got.iter().map(|x| x.to_string()).collect::<Vec<_>>().join(",")));
+		}
+		if got != expect {
+			return fail(
+				"filter_block does not keep exactly the transactions spending a watched output or any output of a transaction kept earlier in the block",
+				format!("kept positions {:?}, rule says {:?}; inputs {:?}", got, expect, txs.iter().map(|t| t.input.iter().map(|i| format!("{}", i.previous_output)).collect::<Vec<_>>()).collect::<Vec<_>>()),
+			);
+		}
+		Ok(())
+	}
+	/// `Confirm` client: `transaction_unconfirmed` for every listed transaction that sits above `height`
+	/// (or, with `blocks`, in one of these blocks): those the monitor lists and the one its manager lists
+	fn unconfirm_listed(&mut self, height: u32, blocks: Option<&BTreeSet<BlockHash>>) -> Result<(), Fail> {
+		loop {
+			let mut stale: Vec<Txid> = self
+				.mon
+				.get_relevant_txids()
+				.into_iter()
+				.filter(|(_, h, bh)| match blocks {
+					Some(bs) => bh.map(|x| bs.contains(&x)).unwrap_or(false),
+					None => *h > height,
+				})
+				.map(|x| x.0)
+				.collect();
+			if let (Some(st), false) = (self.splice_txid, self.seen_close) {
+				let gone = match blocks {
+					Some(bs) => self.conf_hash.get(&st).map(|x| bs.contains(x)).unwrap_or(false) && self.conf.contains_key(&st),
+					None => self.conf.get(&st).map(|h| *h > height).unwrap_or(false),
+				};
+				if gone {
+					stale.push(st);
+				}
+			}
+			match stale.first() {
+				Some(t) => {
+					let t = *t;
+					self.tu(&t)?
+				},
+				None => return Ok(()),
+			}
+		}
+	}
+	/// serialize, read back, carry on with what was read (a restart of the monitor)
+	fn reload(&mut self) -> Result<(), Fail> {
+		let enc = self.mon.encode();
+		let before = (self.snap(), self.mon.verif_awaiting_entries());
+		let mut rd = &enc[..];
+		match <(BlockLocator, ChannelMonitor<TestChannelSigner>)>::read(&mut rd, (self.km, self.km)) {
+			Ok((_, m)) => {
+				self.mon = m;
+				let after = (self.snap(), self.mon.verif_awaiting_entries());
+				if before != after {
+					return fail("a monitor read back shows another view than the one that was written", format!("{:?} vs {:?}", after, before));
+				}
+			},
+			Err(e) => return fail("serialized monitor does not read back", format!("{:?}", e)),
+		}
+		self.observe("L".to_string())
+	}
+	fn snap(&self) -> Snap {
+		let mut balances: Vec<String> = self.mon.get_claimable_balances().iter().map(|b| format!("{:?}", b)).collect();
+		balances.sort();
+		Snap {
+			relevant: self.mon.get_relevant_txids().into_iter().collect(),
+			balances,
+			failed_outbound: self.mon.verif_onchain_failed_outbound_htlcs().iter().map(|h| format!("{}", h)).collect(),
+			alt_funding: self.effective_funding(),
+		}
+	}
+	/// the funding transaction the monitor takes for the confirmed one: the alternative funding while it
+	/// is recorded, else the current scope's (to which a confirmed alternative is promoted once buried)
+	fn effective_funding(&self) -> Option<(Txid, u32)> {
+		match self.mon.verif_alternative_funding_confirmed() {
+			Some((t, _)) => Some((t, 0)),
+			None => Some((self.mon.get_funding_txo().txid, 0)),
+		}
+	}
+	/// the lowest height at which anything now awaiting could mature
+	fn min_threshold(&self) -> u32 {
+		let a = self.mon.verif_awaiting_entries().iter().map(|x| x.3).min().unwrap_or(u32::MAX);
+		let b = self.mon.get_relevant_txids().iter().map(|x| x.1 + ANTI_REORG_DELAY - 1).min().unwrap_or(u32::MAX);
+		a.min(b)
+	}
 	fn tc(&mut self, b: &Blk, txs: &[Transaction]) -> Result<(), Fail> {
+		self.check_filter(txs)?;
 		let txdata: Vec<(usize, &Transaction)> = txs.iter().enumerate().collect();
 		self.mon.transactions_confirmed(&b.header, &txdata, b.height, &NullBroadcaster, self.fee, self.logger);
 		for t in txs {
+			if t.compute_txid() == self.commit_txid {
+				self.seen_close = true;
+			}
 			self.conf.insert(t.compute_txid(), b.height);
 			self.conf_hash.insert(t.compute_txid(), b.header.block_hash());
 		}
@@ -222,9 +394,13 @@ impl<'a> Clone_<'a> {
 		self.observe(format!("U{}.{}", b.id, b.height))
 	}
 	fn bc(&mut self, b: &Blk) -> Result<(), Fail> {
+		self.check_filter(&b.txs)?;
 		let txdata: Vec<(usize, &Transaction)> = b.txs.iter().enumerate().collect();
 		self.mon.block_connected(&b.header, &txdata, b.height, &NullBroadcaster, self.fee, self.logger);
 		for t in &b.txs {
+			if t.compute_txid() == self.commit_txid {
+				self.seen_close = true;
+			}
 			self.conf.insert(t.compute_txid(), b.height);
 			self.conf_hash.insert(t.compute_txid(), b.header.block_hash());
 		}
@@ -260,6 +436,8 @@ impl<'a> Clone_<'a> {
 			watch: self.mon.get_outputs_to_watch().iter().flat_map(|(t, outs)| outs.iter().map(move |(i, s)| format!("{}:{}:{}", t, i, s.to_hex_string()))).collect(),
 			mon_events: self.mon_events.clone(),
 			spendable: { let mut v = self.spendable.clone(); v.sort(); v },
+			failed_outbound: self.mon.verif_onchain_failed_outbound_htlcs().iter().map(|h| format!("{}", h)).collect(),
+			alt_funding: self.effective_funding(),
 		}
 	}
 }
@@ -271,6 +449,18 @@ struct Out {
 	detours: usize,
 	/// clones that were given monitor updates after the closing transaction had confirmed
 	late: usize,
+	/// children confirmed in the block of a parent / of those, with the parent-spending input not first
+	sameblock: usize,
+	nonfirst: usize,
+	/// detours whose fork point is the confirmation block of a transaction (it stays) / the block below (it goes)
+	boundary_keep: usize,
+	boundary_go: usize,
+	/// comparisons "back at a block = as when first there" made / skipped because something could mature
+	kept_checks: usize,
+	kept_skipped: usize,
+	reloads: usize,
+	splice: bool,
+	filters: Vec<String>,
 	traces: Vec<String>,
 	cfg: String,
 }
@@ -296,6 +486,20 @@ fn scenario(seed: u64, want_model: bool) -> Result<Out, Fail> {
 	provide_utxo_reserves(&nodes, 24, Amount::from_sat(50_000_000));
 	let (_, _, chan_id, funding_tx) = create_announced_chan_between_nodes_with_value(&nodes, 0, 1, 1_000_000, 300_000_000);
 	let funding_outpoint = OutPoint { txid: funding_tx.compute_txid(), vout: 0 };
+	// ---- in one scenario of four a splice is negotiated first: its transaction confirms on the reference
+	// chain but is never locked (no messages pass), and the channel is closed on top of it
+	let mut rs = Rng(seed.wrapping_mul(0xC2B2_AE3D_27D4_EB4F) ^ 0x5911CE);
+	let splice = rs.below(4) == 0;
+	let mut splice_tx: Option<Transaction> = None;
+	if splice {
+		use lightning::ln::splicing_tests::{do_initiate_splice_in, splice_channel};
+		let who = rs.below(2) as usize;
+		let contribution = do_initiate_splice_in(&nodes[who], &nodes[1 - who], chan_id, Amount::from_sat(150_000 + rs.below(300_000)));
+		let (tx, _) = splice_channel(&nodes[who], &nodes[1 - who], chan_id, contribution);
+		splice_tx = Some(tx);
+	}
+	let splice_txid = splice_tx.as_ref().map(|t| t.compute_txid());
+	let splice_wait = rs.below(9) as u32;
 	let mut used = BTreeSet::new();
 	let mut claims: Vec<(usize, lightning::types::payment::PaymentPreimage)> = Vec::new();
 	let mut htlc_descr = Vec::new();
@@ -329,9 +533,10 @@ fn scenario(seed: u64, want_model: bool) -> Result<Out, Fail> {
 	};
 	drain(0);
 	drain(1);
-	let cfg = format!("{{\"chan_type\":{},\"closer\":{},\"htlcs\":[{}]}}", chan_type, closer, htlc_descr.join(","));
-	let commitment = get_local_commitment_txn!(nodes[closer], chan_id)[0].clone();
-	let ctxid = commitment.compute_txid();
+	let cfg = format!("{{\"chan_type\":{},\"closer\":{},\"splice\":{},\"htlcs\":[{}]}}", chan_type, closer, splice, htlc_descr.join(","));
+	// the closing transaction: the closer's current commitment; with a splice, the closer's commitment on the
+	// splice funding, obtained from its monitor once the splice transaction has confirmed
+	let mut commitment: Option<Transaction> = if splice { None } else { Some(get_local_commitment_txn!(nodes[closer], chan_id)[0].clone()) };
 	if nodes[0].best_block_info() != nodes[1].best_block_info() {
 		return fail("harness: nodes on different chains", String::new());
 	}
@@ -389,11 +594,30 @@ fn scenario(seed: u64, want_model: bool) -> Result<Out, Fail> {
 	let mut confirmed: BTreeSet<Txid> = BTreeSet::new();
 	let mut known_out: BTreeSet<Txid> = BTreeSet::new();
 	known_out.insert(funding_tx.compute_txid());
-	let mut mempool: Vec<(Transaction, u32)> = vec![(commitment.clone(), start_height + 1)];
+	let mut mempool: Vec<(Transaction, u32)> = match (&commitment, &splice_tx) {
+		(Some(c), _) => vec![(c.clone(), start_height + 1)],
+		(None, Some(t)) => vec![(t.clone(), start_height + 1 + rs.below(3) as u32)],
+		_ => unreachable!(),
+	};
+	let mut splice_height: Option<u32> = None;
+	let mut funding_outpoints: BTreeSet<OutPoint> = BTreeSet::new();
+	funding_outpoints.insert(funding_outpoint);
+	if let Some(t) = &splice_tx {
+		for (i, o) in t.output.iter().enumerate() {
+			if o.script_pubkey.is_p2wsh() {
+				funding_outpoints.insert(OutPoint { txid: t.compute_txid(), vout: i as u32 });
+			}
+		}
+	}
 	let mut chain: Vec<Blk> = Vec::new();
 	let mut height = start_height;
 	let mut idle = 0;
 	loop {
+		let want_commitment = commitment.is_none() && splice_height.map(|h| height >= h + splice_wait).unwrap_or(false);
+		if want_commitment {
+			let mon = nodes[closer].chain_monitor.chain_monitor.get_monitor(chan_id).unwrap();
+			mon.broadcast_latest_holder_commitment_txn(&nodes[closer].tx_broadcaster, &nodes[closer].fee_estimator, &nodes[closer].logger);
+		}
 		for n in 0..2 {
 			for _ in 0..3 {
 				let evs = nodes[n].chain_monitor.chain_monitor.get_and_clear_pending_events();
@@ -402,7 +626,11 @@ fn scenario(seed: u64, want_model: bool) -> Result<Out, Fail> {
 				}
 				for ev in evs {
 					if let Event::BumpTransaction(b) = ev {
-						if let BumpTransactionEvent::ChannelClose { .. } = &b {
+						if let BumpTransactionEvent::ChannelClose { commitment_tx, .. } = &b {
+							if want_commitment && n == closer && commitment.is_none() && commitment_tx.input.iter().any(|i| Some(i.previous_output.txid) == splice_txid) {
+								commitment = Some(commitment_tx.clone());
+								mempool.push((commitment_tx.clone(), height + 1));
+							}
 							continue; // the commitment is mined by the harness
 						}
 						nodes[n].bump_tx_handler.handle_event(&b);
@@ -415,8 +643,15 @@ fn scenario(seed: u64, want_model: bool) -> Result<Out, Fail> {
 				if confirmed.contains(&txid) || mempool.iter().any(|(t, _)| t.compute_txid() == txid) {
 					continue;
 				}
-				if tx.input.len() == 1 && tx.input[0].previous_output == funding_outpoint && txid != ctxid {
+				if tx.input.len() == 1 && funding_outpoints.contains(&tx.input[0].previous_output) && Some(txid) != commitment.as_ref().map(|c| c.compute_txid()) {
+					if want_commitment && n == closer && commitment.is_none() && Some(tx.input[0].previous_output.txid) == splice_txid {
+						commitment = Some(tx.clone());
+						mempool.push((tx, height + 1));
+					}
 					continue; // only the planned commitment closes the channel
+				}
+				if Some(txid) == splice_txid {
+					continue;
 				}
 				let delay = [0u64, 0, 0, 1, 2, 4, 9][rng.below(7) as usize] as u32;
 				mempool.push((tx, height + 1 + delay));
@@ -452,7 +687,7 @@ fn scenario(seed: u64, want_model: bool) -> Result<Out, Fail> {
 				let ok = tx.input.iter().all(|i| {
 					!spent.contains(&i.previous_output)
 						&& !block_spent.contains(&i.previous_output)
-						&& (known_out.contains(&i.previous_output.txid) || in_block.contains(&i.previous_output.txid) || i.previous_output.txid != ctxid && !mempool.iter().any(|(t, _)| t.compute_txid() == i.previous_output.txid))
+						&& (known_out.contains(&i.previous_output.txid) || in_block.contains(&i.previous_output.txid) || Some(i.previous_output.txid) != commitment.as_ref().map(|c| c.compute_txid()) && !mempool.iter().any(|(t, _)| t.compute_txid() == i.previous_output.txid))
 				});
 				// CSV of 1 on anchor-channel outputs: never in the parent's own block
 				let csv_ok = tx.input.iter().all(|i| {
@@ -476,6 +711,9 @@ fn scenario(seed: u64, want_model: bool) -> Result<Out, Fail> {
 		}
 		for tx in &chosen {
 			let txid = tx.compute_txid();
+			if Some(txid) == splice_txid {
+				splice_height = Some(new_height);
+			}
 			confirmed.insert(txid);
 			known_out.insert(txid);
 			for i in &tx.input {
@@ -486,8 +724,96 @@ fn scenario(seed: u64, want_model: bool) -> Result<Out, Fail> {
 		chain.push(Blk { header: block.header, height: new_height, txs: chosen, id: new_height as u64 });
 		height = new_height;
 	}
-	if !confirmed.contains(&ctxid) {
-		return fail("harness: commitment never confirmed", String::new());
+	let ctxid = match commitment.as_ref().map(|c| c.compute_txid()) {
+		Some(t) if confirmed.contains(&t) => t,
+		_ => return fail("harness: commitment never confirmed", format!("splice {} confirmed at {:?}", splice, splice_height)),
+	};
+	let mut out = Out {
+		blocks: chain.len(), clones: 0, ops: 0, detours: 0, late: 0, sameblock: 0, nonfirst: 0, boundary_keep: 0, boundary_go: 0,
+		kept_checks: 0, kept_skipped: 0, reloads: 0, splice, filters: Vec::new(), traces: Vec::new(), cfg,
+	};
+
+	// ---- the chain the clones are told is the reference chain with (seeded) changes that keep it a valid
+	// chain for a monitor (which checks no signatures): a spend of an output of the closing transaction or
+	// of one of its descendants is moved up into its parent's block where time locks allow, and is given
+	// one or two foreign inputs at seeded positions (as sweepers of other implementations batch), so that
+	// the input spending the parent is first, in the middle, or last. Descendants follow the new txids.
+	{
+		let mut rel: BTreeSet<Txid> = BTreeSet::new();
+		rel.insert(ctxid);
+		let mut rename: HashMap<Txid, Txid> = HashMap::new();
+		let mut where_: HashMap<Txid, usize> = HashMap::new();
+		where_.insert(ctxid, chain.iter().position(|b| b.txs.iter().any(|t| t.compute_txid() == ctxid)).unwrap());
+		let mut dummy = 0u8;
+		for j in 0..chain.len() {
+			let txs = std::mem::take(&mut chain[j].txs);
+			let mut keep: Vec<Transaction> = Vec::new();
+			for mut t in txs {
+				let old = t.compute_txid();
+				if old == ctxid {
+					keep.push(t);
+					continue;
+				}
+				for i in t.input.iter_mut() {
+					if let Some(n) = rename.get(&i.previous_output.txid) {
+						i.previous_output.txid = *n;
+					}
+				}
+				let parents: Vec<Txid> = t.input.iter().map(|i| i.previous_output.txid).filter(|p| rel.contains(p)).collect();
+				if parents.is_empty() {
+					keep.push(t);
+					continue;
+				}
+				if rs.below(2) == 0 {
+					for _ in 0..(1 + rs.below(2)) {
+						dummy = dummy.wrapping_add(1);
+						let at = if rs.below(2) == 0 { 0 } else { rs.below(t.input.len() as u64 + 1) as usize };
+						t.input.insert(
+							at,
+							bitcoin::TxIn {
+								previous_output: OutPoint { txid: Txid::from_raw_hash(bitcoin::hashes::Hash::from_byte_array([0x40u8.wrapping_add(dummy); 32])), vout: 3 },
+								script_sig: bitcoin::ScriptBuf::new(),
+								sequence: bitcoin::Sequence::ENABLE_RBF_NO_LOCKTIME,
+								witness: bitcoin::Witness::new(),
+							},
+						);
+					}
+				}
+				let new = t.compute_txid();
+				if new != old {
+					rename.insert(old, new);
+				}
+				rel.insert(new);
+				// move up into the block of the latest parent?
+				let pj = parents.iter().map(|p| where_[p]).max().unwrap();
+				let lt = t.lock_time.to_consensus_u32();
+				let final_ = t.input.iter().all(|i| i.sequence.0 == 0xffff_ffff);
+				let lock_ok = final_ || lt >= 500_000_000 || lt < chain[pj].height;
+				let csv_ok = t.version.0 < 2 || t.input.iter().all(|i| !rel.contains(&i.previous_output.txid) || i.sequence.0 & (1 << 31) != 0 || (i.sequence.0 & 0xffff) == 0);
+				if pj < j && lock_ok && csv_ok && rs.below(3) != 0 {
+					where_.insert(new, pj);
+					chain[pj].txs.push(t);
+				} else {
+					where_.insert(new, j);
+					keep.push(t);
+				}
+			}
+			// (transactions moved up from later blocks were appended to earlier blocks only)
+			let moved_here = std::mem::take(&mut chain[j].txs);
+			keep.extend(moved_here);
+			chain[j].txs = keep;
+		}
+		for b in chain.iter() {
+			let here: BTreeSet<Txid> = b.txs.iter().map(|t| t.compute_txid()).collect();
+			for t in b.txs.iter() {
+				if let Some(pos) = t.input.iter().position(|i| here.contains(&i.previous_output.txid)) {
+					out.sameblock += 1;
+					if pos > 0 {
+						out.nonfirst += 1;
+					}
+				}
+			}
+		}
 	}
 
 	// ---- transaction table
@@ -504,7 +830,6 @@ fn scenario(seed: u64, want_model: bool) -> Result<Out, Fail> {
 		blkid.insert(b.header.block_hash(), b.id);
 	}
 
-	let mut out = Out { blocks: chain.len(), clones: 0, ops: 0, detours: 0, late: 0, traces: Vec::new(), cfg };
 	let mut next_fork_id = 1_000_000u64;
 	for node in 0..2 {
 		let mut reference: Option<View> = None;
@@ -515,8 +840,10 @@ fn scenario(seed: u64, want_model: bool) -> Result<Out, Fail> {
 				Ok(x) => x,
 				Err(e) => return fail("serialized monitor does not read back", format!("{:?}", e)),
 			};
+			LAST_OPS.lock().unwrap().clear();
 			let mut c = Clone_ {
 				mon,
+				km: nodes[node].keys_manager,
 				fee: nodes[node].fee_estimator,
 				logger: nodes[node].logger,
 				mon_events: BTreeSet::new(),
@@ -526,10 +853,14 @@ fn scenario(seed: u64, want_model: bool) -> Result<Out, Fail> {
 				buried: BTreeSet::new(),
 				max_best: 0,
 				commit_txid: ctxid,
+				splice_txid,
+				seen_close: false,
+				confirm_style: style == 8,
 				trace: Vec::new(),
 				txidx: &txidx,
 				blkid: blkid.clone(),
 				want_trace: want_model || style == 0,
+				filters: Vec::new(),
 			};
 			let mut r2 = Rng(seed ^ (style + 1).wrapping_mul(0xD1B5_4A32_D192_ED03) ^ (node as u64) << 40);
 			let k_skip = 2 + r2.below(6) as usize;
@@ -569,10 +900,42 @@ fn scenario(seed: u64, want_model: bool) -> Result<Out, Fail> {
 					}
 				}
 			}
+			// boundary cases: the fork point is EXACTLY the block in which a transaction confirmed (it stays
+			// confirmed, with all its effects) or the block below (it goes), without or after a rewind
+			let mut boundary: BTreeMap<usize, bool> = BTreeMap::new();
+			if style == 7 || style == 8 {
+				let busy: Vec<usize> = (0..chain.len()).filter(|i| !chain[*i].txs.is_empty()).collect();
+				for _ in 0..(1 + r2.below(3)) {
+					if busy.is_empty() {
+						break;
+					}
+					let j = busy[r2.below(busy.len() as u64) as usize];
+					let back = r2.below(4) as usize;
+					let keep = r2.below(3) != 0;
+					let at = if keep { j + 1 + back } else { j + back };
+					if at < chain.len() && at > back {
+						detour_at.insert(at);
+						rewind.insert(at, back);
+						boundary.insert(at, keep);
+					}
+				}
+			}
+			// monitor restarts (serialize, read back) after seeded blocks
+			let mut reload_at: BTreeSet<usize> = BTreeSet::new();
+			if style != 0 && r2.below(3) == 0 {
+				for _ in 0..(1 + r2.below(3)) {
+					reload_at.insert(if r2.below(2) == 0 { (ci + r2.below(9) as usize).min(chain.len() - 1) } else { r2.below(chain.len() as u64) as usize });
+				}
+			}
+			// what the clone showed when its tip was a given real block, and the lowest height at which
+			// something then awaiting could mature
+			let mut hist: BTreeMap<usize, (Snap, u32, u32)> = BTreeMap::new();
 			// only updates a deferred monitor write can really delay past the close: new counterparty
 			// commitments (a holder-commitment update cannot follow the holder's own broadcast)
 			let can_be_late = late_updates[node].iter().all(|u| lightning::ln::verif_hooks::update_step_kinds(u).iter().all(|k| k.starts_with("LatestCounterpartyCommitment")));
-			if !can_be_late {
+			// with a splice the closing commitment is the closer's latest, taken after these updates: the
+			// counterparty cannot have it before they were persisted
+			if !can_be_late || splice {
 				upd_idx = None;
 			}
 			if late_updates[node].is_empty() {
@@ -594,20 +957,24 @@ fn scenario(seed: u64, want_model: bool) -> Result<Out, Fail> {
 						back -= 1;
 					}
 					let fp = if bi == back { start_blk.clone() } else { chain[bi - 1 - back].clone() };
+					if let Some(keep) = boundary.get(&bi) {
+						if back == rewind.get(&bi).copied().unwrap_or(0) {
+							if *keep {
+								out.boundary_keep += 1;
+							} else {
+								out.boundary_go += 1;
+							}
+						}
+					}
 					if back > 0 {
 						// the last `back` real blocks are disconnected first (and delivered again afterwards)
 						if style == 7 {
 							c.bd(&fp)?;
 						} else {
-							loop {
-								let stale: Vec<Txid> = c.mon.get_relevant_txids().into_iter().filter(|(_, h, _)| *h > fp.height).map(|x| x.0).collect();
-								match stale.first() {
-									Some(t) => c.tu(t)?,
-									None => break,
-								}
-							}
-							c.bb(&fp)?;
+							c.unconfirm_listed(fp.height, None)?;
 							c.conf.retain(|_, h| *h <= fp.height);
+							c.bb(&fp)?;
+							c.check_alt("the rewind")?;
 						}
 					}
 					let mut prev = fp.header.block_hash();
@@ -635,6 +1002,9 @@ fn scenario(seed: u64, want_model: bool) -> Result<Out, Fail> {
 						}
 						mon2.block_connected(&fb.header, &[], fb.height, &NullBroadcaster, nodes[node].fee_estimator, nodes[node].logger);
 					}
+					for v in hist.values_mut() {
+						v.2 = v.2.max(fp.height + depth as u32);
+					}
 					if style == 7 {
 						c.bd(&fp)?;
 					} else {
@@ -643,7 +1013,6 @@ fn scenario(seed: u64, want_model: bool) -> Result<Out, Fail> {
 						if best_first {
 							// the reorg branch of best_block_updated alone must retract the fork
 							c.bb(&fp)?;
-							c.conf.retain(|_, h| *h <= fp.height);
 							let left: Vec<_> = c.mon.get_relevant_txids().into_iter().filter(|(_, h, _)| *h > fp.height).collect();
 							if !left.is_empty() {
 								return fail(
@@ -652,19 +1021,17 @@ fn scenario(seed: u64, want_model: bool) -> Result<Out, Fail> {
 								);
 							}
 						}
-						loop {
-							let stale: Vec<Txid> = c.mon.get_relevant_txids().into_iter().filter(|(_, _, h)| h.map(|h| fork_hashes.contains(&h)).unwrap_or(false)).map(|x| x.0).collect();
-							match stale.first() {
-								Some(t) => c.tu(t)?,
-								None => break,
-							}
+						c.unconfirm_listed(fp.height, Some(&fork_hashes))?;
+						if best_first {
+							c.conf.retain(|_, h| *h <= fp.height);
 						}
 						if !best_first {
 							// best block back to the fork point (lower height, other hash: the reorg branch)
-							c.bb(&fp)?;
 							c.conf.retain(|_, h| *h <= fp.height);
+							c.bb(&fp)?;
 						}
 					}
+					c.check_alt("the detour")?;
 					mon2.blocks_disconnected(BlockLocator::new(fp.header.block_hash(), fp.height), &NullBroadcaster, nodes[node].fee_estimator, nodes[node].logger);
 					let a: BTreeSet<_> = c.mon.get_relevant_txids().into_iter().collect();
 					let e: BTreeSet<_> = mon2.get_relevant_txids().into_iter().collect();
@@ -676,13 +1043,36 @@ fn scenario(seed: u64, want_model: bool) -> Result<Out, Fail> {
 							format!("node {} style {} fork of depth {} on height {}: relevant {:?} vs {:?}; balances {:?} vs {:?}", node, style, depth, fp.height, a, e, ba, be),
 						);
 					}
-					for rb in chain[bi - back..bi].iter() {
+					// back at the fork point: everything confirmed up to it keeps all its effects. Compared with
+					// what this clone showed when the fork point was its tip before, unless something then
+					// awaiting could legitimately have matured on the blocks above (real or fork)
+					if bi > back {
+						if let Some((snap, min_thr, max_since)) = hist.get(&(bi - 1 - back)) {
+							if *min_thr > (*max_since).max(fp.height + depth as u32) {
+								out.kept_checks += 1;
+								let now = c.snap();
+								if &now != snap {
+									return fail(
+										"a reorganisation back to a block changed what was concluded from the blocks that were kept",
+										format!("node {} style {} back at height {} (after fork of depth {}, {} real blocks rewound): now {:?} before {:?}", node, style, fp.height, depth, back, now, snap),
+									);
+								}
+							} else {
+								out.kept_skipped += 1;
+							}
+						}
+					}
+					for (k, rb) in chain[bi - back..bi].iter().enumerate() {
 						if style == 7 {
 							c.bc(rb)?;
 						} else {
 							c.tc(rb, &rb.txs)?;
 							c.bb(rb)?;
 						}
+						for v in hist.values_mut() {
+							v.2 = v.2.max(rb.height);
+						}
+						hist.insert(bi - back + k, (c.snap(), c.min_threshold(), rb.height));
 					}
 				}
 				match style {
@@ -740,11 +1130,26 @@ fn scenario(seed: u64, want_model: bool) -> Result<Out, Fail> {
 						},
 					},
 				}
+				if reload_at.contains(&bi) {
+					out.reloads += 1;
+					c.reload()?;
+				}
 				if upd_idx == Some(bi) {
 					if bi >= ci {
 						out.late += 1;
 					}
 					c.apply_updates(&late_updates[node])?;
+					// what was shown at earlier blocks was shown without these updates
+					hist.clear();
+				}
+				if style == 7 || style == 8 {
+					for v in hist.values_mut() {
+						v.2 = v.2.max(b.height);
+					}
+					hist.insert(bi, (c.snap(), c.min_threshold(), b.height));
+					if bi >= 8 {
+						hist.remove(&(bi - 8));
+					}
 				}
 			}
 			out.clones += 1;
@@ -755,7 +1160,7 @@ fn scenario(seed: u64, want_model: bool) -> Result<Out, Fail> {
 				let mut first: HashMap<usize, (u32, Option<u32>)> = HashMap::new();
 				for t in c.trace.iter() {
 					let (op, obs) = t.split_once('=').unwrap();
-					if op.starts_with('A') || op.starts_with('R') {
+					if op.starts_with('A') || op.starts_with('R') || op.starts_with('L') {
 						continue;
 					}
 					let h: u32 = op[1..].split(':').next().unwrap().split('.').nth(1).unwrap().parse().unwrap();
@@ -786,7 +1191,7 @@ fn scenario(seed: u64, want_model: bool) -> Result<Out, Fail> {
 			}
 			let r = reference.as_ref().unwrap();
 			if &v != r {
-				let mut diff = Vec::new();
+				let mut diff: Vec<String> = Vec::new();
 				if v.balances != r.balances {
 					diff.push(format!("balances {:?} vs {:?}", v.balances, r.balances));
 				}
@@ -796,18 +1201,35 @@ fn scenario(seed: u64, want_model: bool) -> Result<Out, Fail> {
 				if v.best != r.best {
 					diff.push(format!("best block {:?} vs {:?}", v.best, r.best));
 				}
-				if v.watch != r.watch {
+				// (with a pending splice the watched outputs and the monitor's own broadcast depend, by design, on
+				// whether the alternative funding was promoted by burial or is still looked up, and on whether a
+				// fork showed a close before the splice confirmed: the channel is closed at the first sight)
+				if v.watch != r.watch && !splice {
 					diff.push(format!("outputs to watch differ ({} vs {})", v.watch.len(), r.watch.len()));
 				}
-				if v.mon_events != r.mon_events {
+				let strip = |e: &BTreeSet<String>| -> BTreeSet<String> { e.iter().filter(|x| !(splice && x.starts_with("holder_force_closed"))).cloned().collect() };
+				if strip(&v.mon_events) != strip(&r.mon_events) {
 					diff.push(format!("monitor events {:?} vs {:?}", v.mon_events, r.mon_events));
+				}
+				if v.failed_outbound != r.failed_outbound {
+					diff.push(format!("outbound HTLCs failed on chain {:?} vs {:?}", v.failed_outbound, r.failed_outbound));
+				}
+				if v.alt_funding != r.alt_funding {
+					diff.push(format!("alternative funding {:?} vs {:?}", v.alt_funding, r.alt_funding));
 				}
 				if v.spendable != r.spendable {
 					diff.push(format!("spendable outputs {:?} vs {:?}", v.spendable, r.spendable));
 				}
-				return fail("deliveries of the same chain disagree", format!("node {} style {} vs whole blocks: {}; ops of this clone: {}", node, style, diff.join("; "), c.trace.join(" ")));
+				if !diff.is_empty() {
+					return fail("deliveries of the same chain disagree", format!("node {} style {} vs whole blocks: {}; ops of this clone: {}", node, style, diff.join("; "), c.trace.join(" ")));
+				}
 			}
 			if want_model {
+				for f in c.filters.iter() {
+					if out.filters.len() < 60 && !out.filters.contains(f) {
+						out.filters.push(f.clone());
+					}
+				}
 				out.traces.push(format!("N{} S{} H{} X{} | {}", node, style, start_height, deltas.join(","), c.trace.join(" ")));
 			}
 		}
@@ -820,7 +1242,7 @@ fn run_one(seed: u64, model: bool) -> String {
 	let r = panic::catch_unwind(AssertUnwindSafe(|| scenario(seed, model)));
 	match r {
 		Ok(Ok(o)) => format!(
-			"R {{\"seed\":{},\"ok\":true,\"cfg\":{},\"blocks\":{},\"clones\":{},\"ops\":{},\"detours\":{},\"late\":{}{}}}",
+			"R {{\"seed\":{},\"ok\":true,\"cfg\":{},\"blocks\":{},\"clones\":{},\"ops\":{},\"detours\":{},\"late\":{},\"sameblock\":{},\"nonfirst\":{},\"boundary_keep\":{},\"boundary_go\":{},\"kept_checks\":{},\"kept_skipped\":{},\"reloads\":{},\"splice\":{}{}}}",
 			seed,
 			o.cfg,
 			o.blocks,
@@ -828,9 +1250,28 @@ fn run_one(seed: u64, model: bool) -> String {
 			o.ops,
 			o.detours,
 			o.late,
-			if model { format!(",\"traces\":[{}]", o.traces.iter().map(|t| jstr(t)).collect::<Vec<_>>().join(",")) } else { String::new() }
+			o.sameblock,
+			o.nonfirst,
+			o.boundary_keep,
+			o.boundary_go,
+			o.kept_checks,
+			o.kept_skipped,
+			o.reloads,
+			if o.splice { 1 } else { 0 },
+			if model {
+				format!(",\"traces\":[{}],\"filters\":[{}]", o.traces.iter().map(|t| jstr(t)).collect::<Vec<_>>().join(","), o.filters.iter().map(|t| jstr(t)).collect::<Vec<_>>().join(","))
+			} else {
+				String::new()
+			}
 		),
-		Ok(Err(f)) => format!("R {{\"seed\":{},\"ok\":false,\"why\":{},\"detail\":{}}}", seed, jstr(&f.why), jstr(&f.detail)),
+		Ok(Err(f)) if f.why.starts_with("KNOWN:") => {
+			format!("R {{\"seed\":{},\"ok\":true,\"aborted\":true,\"findings\":[{}],\"detail\":{}}}", seed, jstr(&f.why[6..]), jstr(&format!("{}; ops of this clone: {}", f.detail, LAST_OPS.lock().unwrap().join(" "))))
+		},
+		Ok(Err(f)) => {
+			let ops = LAST_OPS.lock().unwrap().join(" ");
+			let detail = if f.detail.contains("ops of this clone") { f.detail.clone() } else { format!("{}; ops of this clone: {}", f.detail, ops) };
+			format!("R {{\"seed\":{},\"ok\":false,\"why\":{},\"detail\":{}}}", seed, jstr(&f.why), jstr(&detail))
+		},
 		Err(_) => {
 			let msg = PANIC_MSG.lock().unwrap().clone();
 			// Known behaviour C11-F1 (known_findings.json): time-locked claim packages created when a
